@@ -2,6 +2,7 @@
 import json
 import os
 import random
+import re
 import vlib
 from props.c13 import edges_from, transition_cover
 
@@ -69,6 +70,24 @@ def run(ctx, mode):
     files = ctx.shard(trace, vlib.NCPU * 2, group_key="tr")
     ctx.validate("ClientTrace", files, env={"VERIF_MODE": mode}, heap_gb=4, timeout=2400)
     ctx.add_samples(trace, 5, maxlen=400)
+    nfree = 0
+    if rin is None:
+        # free-running goroutines (the library's own ticker collector, lossy/reordering responder, Close raced
+        # with Start/Do, up to 500 concurrent transactions) under the race detector, judged by the same monitors
+        hr = ctx.harness("stun", race=True)
+        ftrace = ctx.path("client_free_%s.ndjson" % mode)
+        nfree = 10 if ctx.quick() else 80
+        rc, out = ctx.drive(hr, "TestVerifClientFree", env={"VERIF_TRACE_OUT": ftrace, "VERIF_FREE_RUNS": nfree},
+                            timeout=1800, ok_rc=(0, 1, 2, 66))
+        races = [r for r in re.findall(r"WARNING: DATA RACE[\s\S]{0,4000}?==================", out)]
+        if races:
+            with open(ftrace, "a") as fh:
+                fh.write(json.dumps({"k": "cfg", "tr": 999999, "maxattempts": 7, "rto": 1, "closeconn": True, "fallback": True}) + "\n")
+                fh.write(json.dumps({"k": "race", "tr": 999999, "report": races[0][:3000]}) + "\n")
+        elif rc != 0:
+            raise vlib.Inconclusive("free-running driver failed:\n" + out[-2500:])
+        ffiles = ctx.shard(ftrace, vlib.NCPU, group_key="tr", prefix="free")
+        ctx.validate("ClientTrace", ffiles, env={"VERIF_MODE": mode}, heap_gb=4, timeout=2400)
 
     def input_of(rj):
         tl = rj.get("trace_line") or {}
@@ -77,7 +96,7 @@ def run(ctx, mode):
             return scheds[tr - 1]
         return {}
     ctx.input_of = input_of
-    ctx.extra.update({"schedules_replayed": len(scheds), "cover": stats, "mode": mode})
+    ctx.extra.update({"schedules_replayed": len(scheds), "cover": stats, "mode": mode, "free_running_runs": nfree})
     ctx.assumptions += ["Client.tla describes client.go with the D5 repair at the granularity of its calls into injected interfaces",
                         "a replayed goroutine is the only runnable one: every other goroutine of the client is parked at a gate",
                         "environment: a response exists only for a request that reached the wire; concurrently started ids are distinct"]
